@@ -243,6 +243,10 @@ func cmdCheck(args []string) int {
 				report("anchor:"+pf.Fn+":only", "anchor", pf.Fn, "", "", "error", "contract anchor lost: no obligation of "+pf.Fn+" matches "+pf.Only, nil)
 			}
 			r.Obligs = keep
+			// the other obligations of this function (checked, if at all, under another
+			// property) are assumed after their program points; return-point covers
+			// would report code made unreachable by one of them failing there
+			r.Covers = nil
 		}
 		rs = append(rs, r)
 		fnames = append(fnames, pf.Fn)
